@@ -56,8 +56,18 @@ prop('C16', level='proof', design_ref='DESIGN.md section 6 (C16)',
      explanation='Escape-set proofs over the JSON datatype J.',
      not_decided=['failures that need a concurrent reorg (schedules, not inputs)'], assumptions=[])
 
+prop('C17', level='proof', design_ref='DESIGN.md section 6 (C17)',
+     technique='deductive verification: VCs from the real handlers and SessionManager.limited_history against the size '
+               'formulas of the statement, z3',
+     text='The header-count formula (cap 2016, exact count, hex length) and the history limit (complete history or the '
+          'too-large error, identically from cache; subscription dropped) are proved for all arguments, heights and MAX_SEND.',
+     note='Trusted: DB.read_headers / DB.limited_history contracts (A-CALLEE, verified under C02/C04 when claimed there), '
+          'cache coherence at entry is the class invariant (staleness after reorgs is C10).',
+     explanation='Postconditions taken from the statement; hist_of is the full confirmed history.',
+     not_decided=[], assumptions=[])
+
 for _pid in ['C01', 'C02', 'C03', 'C04', 'C05', 'C07', 'C08', 'C09', 'C10', 'C11', 'C13', 'C14', 'C15',
-             'C17', 'C18', 'C19']:
+             'C18', 'C19']:
     na(_pid, 'contracts for this property are not yet built in this round (planned: DESIGN.md section 6); nothing is claimed')
 na('C06', 'quantifies over cancellation instants of an asyncio task while worker-thread jobs keep running: not '
           'expressible as pre/postconditions of functions in a sequential or cooperative model (DESIGN.md section 6, C06)')
